@@ -338,12 +338,19 @@ def check_weights(run):
         m = run.rng.choice([1, 2, 3, 7, 20, 50])
         classes = run.rng.sample(range(11), run.rng.randint(1, 6))
         y = np.array([float(run.rng.choice(classes)) for _ in range(m)])
-        w = IndentationRater.compute_sample_weight(None, y)
-        run.case({"y": y.tolist()}, nontrivial=len(set(y)) > 1,
-                 kind="weights")
-        key = "weights:" + common.sha(y.tolist())[:16]
+        # the ratings as a user has them: floats (as loaded from a training
+        # set), integers (as typed in), 32-bit values
+        store = ["float64", "int64", "float32", "int32", "uint8"][i % 5]
+        ya = y.astype(store)
+        w = IndentationRater.compute_sample_weight(None, ya)
+        run.case({"y": y.tolist(), "store": store},
+                 nontrivial=len(set(y)) > 1, kind="weights")
+        key = "weights:" + common.sha([y.tolist(), store])[:16]
         why = None
-        if np.any(w < 0):
+        w = np.asarray(w)
+        if w.shape != y.shape or not np.all(np.isfinite(w)):
+            why = f"weights {w.tolist()} for ratings stored as {store}"
+        elif np.any(w < 0):
             why = "negative weight"
         elif abs(w.sum() - 1) > 1e-12:
             why = f"weights sum to {w.sum()}"
@@ -352,13 +359,15 @@ def check_weights(run):
             if max(tot) - min(tot) > 1e-12:
                 why = f"class totals differ: {tot}"
         if why:
-            run.failing(SITE_W, key, f"y={y.tolist()}: {why}",
-                        payload={"kind": "weights", "y": y.tolist()},
+            run.failing(SITE_W, key, f"y={y.tolist()} ({store}): {why}",
+                        payload={"kind": "weights", "y": y.tolist(),
+                                 "store": store},
                         theorem="C15_weights")
         exprs.append("l_same close (sample_weight ["
                      + "; ".join(f"({int(v)})%Z" for v in y) + "]) ["
-                     + "; ".join(q(v) for v in w) + "]")
-        descr.append(str(y.tolist()))
+                     + "; ".join(q(float(v)) if np.isfinite(v) else "(0#1)"
+                                 for v in np.ravel(w)) + "]")
+        descr.append(f"{y.tolist()} stored as {store}")
     saved = fits.CASE_HEAD
     fits.CASE_HEAD = CASE_HEAD
     try:
